@@ -26,6 +26,8 @@ def expected(patch):
         meta = os.path.join(os.path.dirname(patch), 'meta.json')
         if os.path.exists(meta):
             m = json.load(open(meta))
+            if str(m.get('status', '')).startswith(('obsolete', 'rejected')):
+                return []
             e = m.get('caught_by') or m.get('breaks')
             return e if isinstance(e, list) else [e]
     out = []
@@ -71,7 +73,8 @@ def main():
     else:
         for patch in sorted(glob.glob(os.path.join(HERE, 'mutants', '*.patch')) +
                             glob.glob(os.path.join(HERE, 'seeded', '*', 'patch.diff'))):
-            jobs.append((patch, expected(patch)))
+            if expected(patch):
+                jobs.append((patch, expected(patch)))
     bad = 0
     with cf.ThreadPoolExecutor(max_workers=int(os.environ.get('SELFTEST_JOBS', '2'))) as ex:
         for res in ex.map(lambda j: run_one(j[0], j[1], tier), jobs):
